@@ -35,13 +35,13 @@ EXPECTED_GATES = ['HGate', 'XGate', 'ZGate']
 CHILD_BYTES = 200_000
 
 
-def _touch(flag: str | None) -> None:
+def _touch(flag: str | None, text: str | None = None) -> None:
     if not flag:
         return
     try:
         tmp = f'{flag}.{os.getpid()}.tmp'
         with open(tmp, 'w') as f:
-            f.write(f'{os.getpid()} {time.time()}\n')
+            f.write(f'{text or os.getpid()} {time.time()}\n')
         os.replace(tmp, flag)
     except OSError:
         pass
@@ -109,11 +109,16 @@ class C14MapPass(BasePass):
         from bqskit.runtime import get_runtime
         _begin(circuit, data, self.flag)
         total = 0
-        for _ in range(self.iters):
+        for r in range(self.iters):
             outs = await get_runtime().map(
                 c14_child, range(self.width), nbytes=self.nbytes,
             )
             total += sum(len(o) for o in outs)
+            # `<flag>.rounds`: number of completed map rounds so far; its
+            # existence tells the runner that every worker has imported this
+            # module and that traffic really flows in both directions.
+            if self.flag and (r < 5 or r % 5 == 0):
+                _touch(self.flag + '.rounds', str(r + 1))
         data['c14_total'] = total
         _finish(circuit, data, 'map')
 
